@@ -11,11 +11,14 @@ an arbitrary factor.  Hence every read of a foreign slot inside the per-prime lo
     * be an in-place operation under its OWN prime (index expression equal to the slot).
 Slots are decided symbolically (polynomials over the chain length and loop variables, r_slotmod.Sym).
 """
-from facts import walk, callee, strip, local_of, root_local, Tree
+from facts import walk, callee, strip, local_of, root_local, Tree, Defs
 from r_slotmod import Sym, padd, pmul, pconst, patom, pshow, atoms_of
 
 R = "R-RESDOM"
 REDUCERS = {"reduce", "barrett_reduce_u64", "barrett_reduce_u128", "modulo", "modulo_p", "modulo_ps"}
+
+
+_LETS = {}
 
 
 def _offset_exprs(e):
@@ -27,6 +30,14 @@ def _offset_exprs(e):
     if not rl or strip(e["e"]).get("k") != "Path":
         return None
     idx = strip(e["i"])
+    # a range held in a local (`let r = a..b; x[r.clone()]`)
+    for _ in range(3):
+        if idx.get("k") == "MCall" and idx.get("name") == "clone" and not idx["args"]:
+            idx = strip(idx["recv"])
+        elif idx.get("k") == "Path" and idx.get("res") == "local" and _LETS.get(idx["lid"]) is not None:
+            idx = strip(_LETS[idx["lid"]])
+        else:
+            break
     if idx.get("k") == "Struct" and "ops::Range" in idx.get("path", ""):
         d = {f["name"]: f["e"] for f in idx["fields"]}
         if "start" not in d:
@@ -66,7 +77,10 @@ def run(facts, rep, files, floor=0):
         if not fors:
             continue
         sym = Sym(facts, body)
+        _LETS.clear()
+        _LETS.update(sym.lets)
         tree = Tree(body)
+        defs_ = Defs(body)
         # stride: the atom `coeff_count`-like that multiplies slot indices: the bound of the innermost element loops
         stride = None
         for f in fors:
@@ -155,7 +169,7 @@ def run(facts, rep, files, floor=0):
                             verdict = "operated on under its own prime"
                             break
                     if k == "If" and tree.slot_of(child) in ("th", "el"):
-                        vals = [y for y in walk(a["c"]) if y.get("k") == "MCall" and y.get("name") == "value"]
+                        vals = [y for y in defs_.closure(a["c"]) if y.get("k") == "MCall" and y.get("name") == "value"]
                         c0 = strip(a["c"])
                         if c0.get("k") == "Bin" and c0.get("op") in ("<", "<=", ">", ">=") and len(vals) >= 2:
                             verdict = "copied under a comparison of the two moduli"
@@ -187,6 +201,8 @@ def run_operand_index(facts, rep, files, floor=0):
             continue
         body = facts.hir[p]
         sym = Sym(facts, body)
+        _LETS.clear()
+        _LETS.update(sym.lets)
         stride = None
         for x in walk(body):
             if x.get("k") == "Index":
